@@ -68,22 +68,26 @@ PROPS = {
     },
     'C10': {
         'explanation': 'Clause decided: polarity and operands of every VClock/Dot primitive: apply, reset_remove, intersection, glb, validate_op, '
-                       'inc, merge, partial_cmp (4 results + scans), concurrent, Dot::partial_cmp, and the who-may-write census of dots.',
-        'decides': 'VC-APPLY, VC-RESET, VC-INTERSECT, VC-GLB, VC-VALIDATE, VC-INC, VC-MERGE, VC-PCMP x4, VC-CONC, DOT-PCMP, VC-NOZERO',
+                       'inc, merge, clone_without, partial_cmp (4 results + scans), concurrent, Dot::partial_cmp; the accessors the rest stands on '
+                       '(get = stored or 0, is_empty, dot, iter, into_iter, from_iter, From<Dot>); and a dataflow proof that every counter '
+                       'stored into a dots map anywhere in the crate is non-zero at the store.',
+        'decides': 'VC-APPLY, VC-RESET, VC-INTERSECT, VC-WITHOUT, VC-GLB, VC-VALIDATE, VC-INC, VC-MERGE, VC-PCMP x4, VC-CONC, DOT-PCMP, VC-ACCESS x7, VC-NOZERO',
         'not_decided': 'the order-theoretic laws as theorems (they follow on paper from the per-actor comparisons decided here)',
     },
     'C11': {
         'explanation': 'Clause decided: operand routing and guard polarity of counters and registers: GCounter::read sums every dot, PNCounter '
                        'read = read(p) - read(n), Dir<->field routing in apply/validate_op/inc/dec/inc_many/dec_many, componentwise '
                        'merge/reset/validate_merge, inc = get+1, inc_many = steps + get, LWW update guard (must under <, never under >) and '
-                       'conflict condition, Max/Min guards, delegation of merge/apply to the guarded update, GSet union.',
-        'decides': 'CNT-READ, CNT-ROUTE, CNT-STEP, GC-DELEGATE, VC-APPLY, VC-MERGE, VC-INC, LWW-UPDATE, LWW-CONFLICT, LWW-ROUTE, MAXMIN-UPDATE, MAXMIN-ROUTE, GSET-GLIST',
+                       'conflict condition (also on every validate path), Max/Min guards, delegation of merge/apply to the guarded update, GSet union, '
+                       'plain reads return the retained field.',
+        'decides': 'CNT-READ, CNT-ROUTE, CNT-STEP, GC-DELEGATE, VC-APPLY, VC-MERGE, VC-INC, VC-ACCESS(iter,get), LWW-UPDATE, LWW-CONFLICT, LWW-ROUTE, MAXMIN-UPDATE, MAXMIN-ROUTE, GSET-GLIST, READ-PLAIN',
         'not_decided': 'numeric results (u64 overflow of counters is a runtime quantity)',
     },
     'C12': {
         'explanation': 'Clause decided: dedup gate of List::apply (both op variants), absorption of the op dot, fresh-dot tagging of '
-                       'insert_index/delete_index and agreement of Op::dot() with the identifier marker, and the identifier comparison table.',
-        'decides': 'GATE(list), ABSORB(list), LIST-TAG, LIST-APPLY, VC-INC, ID-CMP, ID-MARKER, ID-BETWEEN',
+                       'insert_index/delete_index and agreement of Op::dot() with the identifier marker (value and into_value), the identifier '
+                       'comparison table, and reads that walk the whole identifier-ordered map.',
+        'decides': 'GATE(list), ABSORB(list), LIST-TAG, LIST-APPLY, LIST-READ, VC-INC, ID-CMP, ID-MARKER, ID-BETWEEN',
         'not_decided': 'that positions are consistent across replicas (depends on the values Identifier::between produces)',
     },
     'C14': {
@@ -95,9 +99,10 @@ PROPS = {
     },
     'C15': {
         'explanation': 'Clause decided: MerkleReg gate, dag/orphan routing by "all children in dag", orphan re-examination after a node becomes '
-                       'visible, merge re-applies dag and orphans, read = roots looked up in dag, validate_op uses the same presence notion.',
-        'decides': 'GATE-MERKLE, MK-ROUTE, MK-REEXAM, MK-MERGE, MK-READ, MK-VALIDATE',
-        'not_decided': 'content addressing (hash collisions) and the behavioural statement over all arrival orders',
+                       'visible (provenance of the re-applied node), merge re-applies dag and orphans, read = roots looked up in dag, validate_op '
+                       'uses the same presence notion, a node\'s identity is the digest of every child and its value.',
+        'decides': 'GATE-MERKLE, MK-ROUTE, MK-REEXAM, MK-MERGE, MK-READ, MK-VALIDATE, MK-HASH',
+        'not_decided': 'collisions of the hash function itself and the behavioural statement over all arrival orders',
     },
     'C16': {
         'explanation': 'Clause decided: what validate_op consults and under which outcome Err is returned: sibling cross-check of validate_op '
